@@ -46,6 +46,17 @@ def hint_base(hint):
     return h.split(".")[-1]
 
 
+def hint_qualified(hint):
+    """Innermost type expression of a hint, qualifier kept: 'cstruct.Foo' / 'Foo' / 'CharArray'."""
+    h = hint.strip()
+    while True:
+        m = re.match(r"^(?:\w+\.)*(Array|Pointer)\[(.*)\]$", h)
+        if not m:
+            break
+        h = m.group(2).strip()
+    return h
+
+
 def expected_base(t):
     from dissect.cstruct import types
 
@@ -85,15 +96,22 @@ def judge(ctx, cs, text, label, detail_extra=None):
         ctx.violation("shape", "stub-is-not-a-class", det)
         return
     declared = {}
+    twice = []
     for node in cls.body:
+        names = []
         if isinstance(node, ast.ClassDef):
-            declared[node.name] = node
+            names = [node.name]
         elif isinstance(node, ast.AnnAssign) and isinstance(node.target, ast.Name):
-            declared[node.target.id] = node
+            names = [node.target.id]
         elif isinstance(node, ast.Assign):
-            for t in node.targets:
-                if isinstance(t, ast.Name):
-                    declared[t.id] = node
+            names = [t.id for t in node.targets if isinstance(t, ast.Name)]
+        for n in names:
+            if n in declared:
+                twice.append(n)
+            declared[n] = node
+    if twice:
+        ctx.violation("names", "name-declared-more-than-once-in-stub", dict(det, names=sorted(set(twice))))
+        return
     empty = lib.cstruct()
     want = set(user_types(cs)) | {k for k in cs.consts if k not in empty.consts}
     want = {w for w in want if w.isidentifier()}
@@ -136,8 +154,56 @@ def judge(ctx, cs, text, label, detail_extra=None):
                 ctx.violation("names", "alias-declared-with-another-target", dict(det, alias=n, target=ast.unparse(tgt)))
                 return
         ctx.event("alias_targets_checked")
-    # field annotations of structures
+    # field annotations of structures (recursively through the classes declared inline for nested structures)
     from dissect.cstruct import types
+
+    def check_struct(node, t, path):
+        ann, inner = {}, {}
+        for b in node.body:
+            if isinstance(b, ast.AnnAssign) and isinstance(b.target, ast.Name):
+                ann[b.target.id] = ast.unparse(b.annotation)
+            elif isinstance(b, ast.ClassDef):
+                inner[b.name] = b
+        for fname, field in t.fields.items():
+            if not fname.isidentifier():
+                continue
+            if fname not in ann:
+                ctx.violation("fields", "structure-field-not-annotated", dict(det, struct=path, field=fname))
+                return False
+            qual = hint_qualified(ann[fname])
+            got = qual.split(".")[-1]
+            exp = expected_base(field.type)
+            if got != exp:
+                ctx.violation("fields", "field-hint-names-another-type",
+                              dict(det, struct=path, field=fname, hint=ann[fname], expected=exp))
+                return False
+            base = field.type
+            while issubclass(base, (types.Pointer, types.Array)) and not issubclass(base, (types.CharArray, types.WcharArray)):
+                base = base.type
+            if "." in qual:
+                # cstruct.X: the cstruct object must provide X, and X must be this very type
+                try:
+                    provided = getattr(cs, got)
+                except AttributeError:
+                    provided = None
+                if provided is None or (got not in declared and got not in empty.typedefs):
+                    ctx.violation("fields", "field-hint-names-a-type-the-cstruct-object-does-not-provide",
+                                  dict(det, struct=path, field=fname, hint=ann[fname]))
+                    return False
+                if isinstance(provided, type) and issubclass(base, (types.Structure, types.Enum, types.Flag)) \
+                        and provided is not base:
+                    ctx.violation("fields", "field-hint-names-another-type-of-the-same-name",
+                                  dict(det, struct=path, field=fname, hint=ann[fname]))
+                    return False
+            elif got in inner:
+                if issubclass(base, types.Structure) and not check_struct(inner[got], base, f"{path}.{got}"):
+                    return False
+            elif got not in ("CharArray", "WcharArray"):
+                ctx.violation("fields", "field-hint-names-a-class-that-is-not-in-scope",
+                              dict(det, struct=path, field=fname, hint=ann[fname]))
+                return False
+            ctx.event("field_hints_checked")
+        return True
 
     for name, t in user_types(cs).items():
         if not (isinstance(t, type) and issubclass(t, types.Structure)):
@@ -145,23 +211,8 @@ def judge(ctx, cs, text, label, detail_extra=None):
         node = declared.get(t.__name__)
         if not isinstance(node, ast.ClassDef):
             continue  # alias of an already declared class
-        ann = {}
-        for b in node.body:
-            if isinstance(b, ast.AnnAssign) and isinstance(b.target, ast.Name):
-                ann[b.target.id] = ast.unparse(b.annotation)
-        for fname, field in t.fields.items():
-            if not fname.isidentifier():
-                continue
-            if fname not in ann:
-                ctx.violation("fields", "structure-field-not-annotated", dict(det, struct=name, field=fname))
-                return
-            got = hint_base(ann[fname])
-            exp = expected_base(field.type)
-            if got != exp:
-                ctx.violation("fields", "field-hint-names-another-type",
-                              dict(det, struct=name, field=fname, hint=ann[fname], expected=exp))
-                return
-            ctx.event("field_hints_checked")
+        if not check_struct(node, t, name):
+            return
         # enum members
     for name, t in user_types(cs).items():
         if isinstance(t, type) and issubclass(t, (types.Enum, types.Flag)):
@@ -189,6 +240,12 @@ def special_forms(ctx):
         ("string-alias", "struct T { uint8 a; };", lambda cs: cs.add_type("alias_of_uint8", "uint8")),
         ("flag-and-enum", "flag FL1 : uint16 { FA, FB, FC = 0x10 };\nenum EN1 { EA, EB = 5 };\n"
                           "struct T { FL1 f; EN1 e[2]; FL1 b : 3; uint16 r : 13; };", None),
+        ("enum-and-flag-aliases", "enum Color : uint8 { RED, GREEN };\ntypedef Color color_t;\ntypedef color_t color2_t;\n"
+                                  "flag Perm : uint16 { PR, PW };\ntypedef Perm perm_t;\n"
+                                  "struct T { color_t c; perm_t p; color2_t d[2]; Perm q : 3; uint16 r : 13; };", None),
+        ("tagged-inline-members", "struct G { uint8 g; };\nstruct T { struct Inner { uint8 a; struct Deep { uint8 q; } deep[2]; "
+                                  "} x; union Variant { uint8 a; uint16 b; } v[2]; G gs[2]; G *gp; G one; struct { uint8 z; }; "
+                                  "struct { uint16 w; G g2; } anon_named; };", None),
         ("wchar-char-arrays", "struct T { char a[4]; wchar b[2]; char c[]; wchar d[]; char *s; uint8 **pp; };", None),
     ]
     for label, text, post in forms:
